@@ -420,7 +420,7 @@ class SparselyBin(Factory, Container):
         # used below. bit expensive, so do here once
         n_dim = self.n_dim
 
-        if n_dim == 1 and all_weights_one and isinstance(self.value, Count):
+        if n_dim == 1 and all_weights_one and isinstance(self.value, Count) and self.value.transform is identity:
             # special case: filling single array where all weights are 1
             # (use fast np.unique that returns counts)
             uniques, counts = np.unique(selected, return_counts=True)
